@@ -288,6 +288,19 @@ theorem resolvable_only_if_accepted (c : Cfg) (l : List (Tx × Option NDoc)) (id
   · simp [Store.get, alGet] at h0
   · exact h1
 
+/-- **REPROCESS.** Replaying the DAG's did+json transactions (`handleReprocessEvent` → `callback`,
+    `fact_call_sites`) over ANY store and ANY list of transactions — including those whose documents were rejected when
+    they were received — adds an event only for a transaction that `callback` accepts in the state reached at that
+    moment (so integrity, parsing, `NetworkDocumentValidator` and the authorisation of `callback_accepts_iff` hold for
+    it), and a transaction the store already holds changes nothing when it is accepted again. -/
+theorem reprocess_is_callback_again (c : Cfg) (l : List (Tx × Option NDoc)) (s : Store) :
+    (∀ id e, e ∈ ((reprocess c s l).get id).events →
+      e ∈ (s.get id).events ∨
+      ∃ pre tx d post s', l = pre ++ (tx, some d) :: post ∧ e = eventOf tx d ∧ d.id = id ∧
+        callback c (reprocess c s pre) tx (some d) = .ok s') ∧
+    (∀ tx d, contains (s.get d.id).events (eventOf tx d) = true → reprocessOne c s tx (some d) = s) :=
+  ⟨fun id e h => reprocess_events c l s id e h, fun tx d h => reprocessOne_known c s tx d h⟩
+
 /-! ### controller resolution is bounded -/
 
 /-- **Depth bound.** Whenever `resolve` (remaining depth `n`) succeeds for a DID there is a chain of at most `n`
@@ -510,6 +523,16 @@ example : ((runHist cfg0 {} [
     (updateTx 200 [100] "did:nuts:Da" "b", some (docOf "a" ["a", "b"] ["a"])),
     (updateTx 300 [200] "did:nuts:Da" "b" 30, some (docOf "a" ["a", "b"] ["a", "b"]))]).get "did:nuts:Da").events.map (·.ref)
   = [100, 200] := by decide
+
+-- REPROCESS over a history holding a rejected ill-formed document (key id not the thumbprint) changes nothing
+example :
+    let hist : List (Tx × Option NDoc) := [
+      (createTx 100 "a", some (docOf "a" ["a"] ["a"])),
+      (updateTx 200 [100] "did:nuts:Da" "a",
+        some { docOf "a" ["a"] ["a"] with vms := [vmOf "did:nuts:Da" "a", { vmOf "did:nuts:Da" "b" with key := .key "x" }] })]
+    let s := runHist cfg0 {} hist
+    ((s.get "did:nuts:Da").events.map (·.ref), ((reprocess cfg0 s hist).get "did:nuts:Da").events.map (·.ref))
+      = ([100], [100]) := by decide
 
 -- a DID controlled by another DID: the controller's key authorises (prevs name both versions); after the controller
 -- is deactivated its key no longer authorises relative to the deactivating transaction — and (by design, see
